@@ -141,6 +141,18 @@ def requests(cfg, rng, n, tier, part, nparts, st):
                 if x > cfg.max:
                     x = cfg.max
                 a = x
+            elif rr < 0.56:
+                # digits equal to the largest power of ten in a whole / half digit (the chunk bases of a decimal digit count), zero or random
+                D = cfg.dbits
+                tens = [10 ** k for k in range(1, 20) if 10 ** k < (1 << D)]
+                half = [t for t in tens if t < (1 << (D // 2))] or tens[:1]
+                a = 0
+                for i in range(cfg.n):
+                    c = rng.random()
+                    d = (rng.choice(tens[-2:] + half[-2:]) + rng.choice((-1, 0, 0, 1))) if c < 0.4 else (0 if c < 0.6 else rng.getrandbits(D))
+                    a |= (d % cfg.B) << (D * i)
+                a = min(a, cfg.max) or 1
+                base = 10
             elif rr < 0.65:
                 a = rng.choice((0, 1, -1, cfg.min, cfg.max, 9, 10, 11, 99, 100, 101, gen.value(cfg, rng)))
                 base = rng.choice((0, 1, 2, -1, -2, cfg.min, cfg.max, 10, a, gen.value(cfg, rng)))
